@@ -787,6 +787,14 @@ def gen_shape(rng, fam, kn, defined):
              and not fam.cls(n).get("tvars")]
     cname = rng.choice(cands)
     base = ["cls", cname]
+    roots = [n for n in cands if any(fam.tag(v) for v in fam.subclasses(n, defined))
+             and not fam.own_cfg(n).get("discriminator")]
+    if roots and rng.random() < 0.3:
+        cname = rng.choice(roots)
+        base = ["ann", ["cls", cname],
+                {"field": "t", "sub": True, "sup": rng.random() < 0.3, "tagger": None}]
+        if rng.random() < 0.7:
+            return base
     gens = [n for n in fam.order if n in defined and fam.cls(n).get("tvars")]
     if gens and rng.random() < 0.25:
         base = ["gen", rng.choice(gens), [rng.choice([["date"], ["int"], ["cls", cname]])]]
